@@ -257,6 +257,11 @@ func (flogs *fileLogs) ReadAll(dataID, version dvid.UUID) ([]storage.LogMessage,
 			entryType := binary.LittleEndian.Uint16(data[pos : pos+2])
 			size := int64(binary.LittleEndian.Uint32(data[pos+2 : pos+6]))
 			pos += 6
+			if int64(len(data)) < pos+size {
+				// incompletely written last record: don't return it padded up to the slice capacity.
+				dvid.Criticalf("malformed filelog %q: record at position %d is cut short\n", filename, pos-6)
+				break
+			}
 			databuf := data[pos : pos+size]
 			pos += size
 			msg := storage.LogMessage{EntryType: entryType, Data: databuf}
@@ -324,6 +329,11 @@ func (flogs *fileLogs) StreamAll(dataID, version dvid.UUID, ch chan storage.LogM
 			entryType := binary.LittleEndian.Uint16(data[pos : pos+2])
 			size := binary.LittleEndian.Uint32(data[pos+2 : pos+6])
 			pos += 6
+			if uint64(len(data)) < uint64(pos)+uint64(size) {
+				// incompletely written last record: don't send it padded up to the slice capacity.
+				dvid.Criticalf("malformed filelog %q: record at position %d is cut short\n", filename, pos-6)
+				break
+			}
 			databuf := data[pos : pos+size]
 			pos += size
 			ch <- storage.LogMessage{EntryType: entryType, Data: databuf}
